@@ -64,12 +64,14 @@ def _short(e):
     return s if len(s) < 200 else s[:197] + "..."
 
 
-def i1(chk, repo):
-    chk.rule("I1", "the value computed by compute() equals the defining formula of the property statement as an identity of expressions, for generic surfaces (L = q S CL, CL = sum CL_i S_i / S, L_equals_W = 1 - L/W, W = (W0 + sum Ws + Wf) g n, Breguet fuel burn, mass-weighted cg, v-independent Reynolds number per length, CD = CDi + CDv + CDw + CD0, S_ref_total = sum S_i)", min_decided=12)
+def i1(chk, repo, only=None, rule="I1", min_decided=12):
+    chk.rule(rule, "the value computed by compute() equals the defining formula of the property statement as an identity of expressions, for generic surfaces (L = q S CL, CL = sum CL_i S_i / S, L_equals_W = 1 - L/W, W = (W0 + sum Ws + Wf) g n, Breguet fuel burn, mass-weighted cg, v-independent Reynolds number per length, CD = CDi + CDv + CDw + CD0, S_ref_total = sum S_i)", min_decided=min_decided)
     F = "openaerostruct/functionals/"
 
     def runs_of(rel, cname):
         c = repo.cls(rel, cname)
+        if only is not None and cname not in only:
+            return c, []
         m = component_model(repo, c, domains=(SymX,))
         return c, [r for r in m.runs.get("compute", []) if r.final is not None]
 
@@ -81,23 +83,23 @@ def i1(chk, repo):
         CLs, CDs, Ss = a.per_surface("_CL"), a.per_surface("_CD"), a.per_surface("_S_ref")
         rho, v, St = a.s("rho"), a.s("v"), a.s("S_ref_total")
         if not CLs or None in (rho, v, St):
-            chk.undecided("I1", "TotalLiftDrag", c.where, "symbols not found")
+            chk.undecided(rule, "TotalLiftDrag", c.where, "symbols not found")
             continue
         sCL = sum(CLs[k] * Ss[k] for k in CLs)
         sCD = sum(CDs[k] * Ss[k] for k in CDs)
         q = sp.Rational(1, 2) * rho * v**2
         tag = sig_txt(r.sigma)
-        check_identity(chk, "I1", "TotalLiftDrag.CL %s" % tag, c.where, _out(r, "CL"), sCL / St, t, "CL = sum CL_i S_i / S_ref_total")
-        check_identity(chk, "I1", "TotalLiftDrag.CD %s" % tag, c.where, _out(r, "CD"), sCD / St, t, "CD = sum CD_i S_i / S_ref_total")
+        check_identity(chk, rule, "TotalLiftDrag.CL %s" % tag, c.where, _out(r, "CL"), sCL / St, t, "CL = sum CL_i S_i / S_ref_total")
+        check_identity(chk, rule, "TotalLiftDrag.CD %s" % tag, c.where, _out(r, "CD"), sCD / St, t, "CD = sum CD_i S_i / S_ref_total")
         CLo, CDo = _out(r, "CL"), _out(r, "CD")
-        check_identity(chk, "I1", "TotalLiftDrag.L %s" % tag, c.where, _out(r, "L"), q * St * CLo if CLo is not None else None, t, "L = q S_ref_total CL")
-        check_identity(chk, "I1", "TotalLiftDrag.D %s" % tag, c.where, _out(r, "D"), q * St * CDo if CDo is not None else None, t, "D = q S_ref_total CD")
+        check_identity(chk, rule, "TotalLiftDrag.L %s" % tag, c.where, _out(r, "L"), q * St * CLo if CLo is not None else None, t, "L = q S_ref_total CL")
+        check_identity(chk, rule, "TotalLiftDrag.D %s" % tag, c.where, _out(r, "D"), q * St * CDo if CDo is not None else None, t, "D = q S_ref_total CD")
     # ---- SumAreas
     c, runs = runs_of(F + "sum_areas.py", "SumAreas")
     for r in runs:
         t = r.domains["SYMX"].table
         Ss = Acc(t).per_surface("_S_ref")
-        check_identity(chk, "I1", "SumAreas.S_ref_total", c.where, _out(r, "S_ref_total"), sum(Ss.values()) if Ss else None, t, "S_ref_total = sum S_i")
+        check_identity(chk, rule, "SumAreas.S_ref_total", c.where, _out(r, "S_ref_total"), sum(Ss.values()) if Ss else None, t, "S_ref_total = sum S_i")
     # ---- Equilibrium
     c, runs = runs_of(F + "equilibrium.py", "Equilibrium")
     for r in runs:
@@ -107,11 +109,11 @@ def i1(chk, repo):
         W0, Wf, n, g = a.s("W0"), a.s("fuelburn"), a.s("load_factor"), grav(repo)
         rho, v, S, CL = a.s("rho"), a.s("v"), a.s("S_ref_total"), a.s("CL")
         if None in (W0, Wf, n, g, rho, v, S, CL) or not Ws:
-            chk.undecided("I1", "Equilibrium", c.where, "symbols not found")
+            chk.undecided(rule, "Equilibrium", c.where, "symbols not found")
             continue
         W = (W0 + sum(Ws.values()) + Wf) * g * n
-        check_identity(chk, "I1", "Equilibrium.total_weight", c.where, _out(r, "total_weight"), W, t, "W = (W0 + sum Ws + Wf) g n")
-        check_identity(chk, "I1", "Equilibrium.L_equals_W", c.where, _out(r, "L_equals_W"), 1 - sp.Rational(1, 2) * rho * v**2 * S * CL / W, t, "1 - L/W")
+        check_identity(chk, rule, "Equilibrium.total_weight", c.where, _out(r, "total_weight"), W, t, "W = (W0 + sum Ws + Wf) g n")
+        check_identity(chk, rule, "Equilibrium.L_equals_W", c.where, _out(r, "L_equals_W"), 1 - sp.Rational(1, 2) * rho * v**2 * S * CL / W, t, "1 - L/W")
     # ---- BreguetRange
     c, runs = runs_of(F + "breguet_range.py", "BreguetRange")
     for r in runs:
@@ -120,9 +122,9 @@ def i1(chk, repo):
         Ws = a.per_surface("_structural_mass")
         W0, R, CT, a_, M, CD, CL = a.s("W0"), a.s("R"), a.s("CT"), a.s("speed_of_sound"), a.s("Mach_number"), a.s("CD"), a.s("CL")
         if None in (W0, R, CT, a_, M, CD, CL) or not Ws:
-            chk.undecided("I1", "BreguetRange", c.where, "symbols not found")
+            chk.undecided(rule, "BreguetRange", c.where, "symbols not found")
             continue
-        check_identity(chk, "I1", "BreguetRange.fuelburn", c.where, _out(r, "fuelburn"), (W0 + sum(Ws.values())) * (sp.exp(R * CT / (a_ * M) * CD / CL) - 1), t, "(W0 + sum Ws)(exp(R CT/(a M) CD/CL) - 1)")
+        check_identity(chk, rule, "BreguetRange.fuelburn", c.where, _out(r, "fuelburn"), (W0 + sum(Ws.values())) * (sp.exp(R * CT / (a_ * M) * CD / CL) - 1), t, "(W0 + sum Ws)(exp(R CT/(a M) CD/CL) - 1)")
     # ---- CenterOfGravity (given Equilibrium's W = (W0 + sum Ws + Wf) g n, the denominator is W0 + sum m_i)
     c, runs = runs_of(F + "center_of_gravity.py", "CenterOfGravity")
     for r in runs:
@@ -133,20 +135,20 @@ def i1(chk, repo):
         if n is None:
             n = t.get("load_factor")
         if None in (W0, cg0, Wf, n, g, W) or not ms:
-            chk.undecided("I1", "CenterOfGravity", c.where, "symbols not found")
+            chk.undecided(rule, "CenterOfGravity", c.where, "symbols not found")
             continue
         got = _out(r, "cg")
         if got is not None:
             got = got.subs(W, (W0 + sum(ms.values()) + Wf) * g * n)
         want = (W0 * cg0 + sum(ms[k] * cgs[k] for k in ms)) / (W0 + sum(ms.values()))
-        check_identity(chk, "I1", "CenterOfGravity.cg", c.where, got, want, t, "cg = (W0 cg0 + sum m_i cg_i)/(W0 + sum m_i) with W from Equilibrium")
+        check_identity(chk, rule, "CenterOfGravity.cg", c.where, got, want, t, "cg = (W0 cg0 + sum m_i cg_i)/(W0 + sum m_i) with W from Equilibrium")
     # ---- ReynoldsComp
     c, runs = runs_of("openaerostruct/common/reynolds_comp.py", "ReynoldsComp")
     for r in runs:
         t = r.domains["SYMX"].table
         a = Acc(t)
         rho, v, mu = a.s("rho"), a.s("v"), a.s("mu")
-        check_identity(chk, "I1", "ReynoldsComp.re", c.where, _out(r, "re"), rho * v / mu if None not in (rho, v, mu) else None, t, "re = rho v / mu")
+        check_identity(chk, rule, "ReynoldsComp.re", c.where, _out(r, "re"), rho * v / mu if None not in (rho, v, mu) else None, t, "re = rho v / mu")
     # ---- TotalDrag
     c, runs = runs_of("openaerostruct/aerodynamics/total_drag.py", "TotalDrag")
     for r in runs:
@@ -155,7 +157,7 @@ def i1(chk, repo):
         cdi, cdv, cdw = a.s("CDi"), a.s("CDv"), a.s("CDw")
         got = _out(r, "CD")
         cd0 = [s for s in (got.free_symbols if got is not None else ()) if s.name.startswith("cfg:") and "CD0" in s.name]
-        check_identity(chk, "I1", "TotalDrag.CD", c.where, _out(r, "CD"), cdi + cdv + cdw + cd0[0] if (None not in (cdi, cdv, cdw) and cd0) else None, t, "CD = CDi + CDv + CDw + CD0")
+        check_identity(chk, rule, "TotalDrag.CD", c.where, _out(r, "CD"), cdi + cdv + cdw + cd0[0] if (None not in (cdi, cdv, cdw) and cd0) else None, t, "CD = CDi + CDv + CDw + CD0")
     # ---- Coeffs
     c, runs = runs_of("openaerostruct/aerodynamics/coeffs.py", "Coeffs")
     for r in runs:
@@ -163,16 +165,16 @@ def i1(chk, repo):
         a = Acc(t)
         L, D, rho, v, S = a.s("L"), a.s("D"), a.s("rho"), a.s("v"), a.s("S_ref")
         if None in (L, D, rho, v, S):
-            chk.undecided("I1", "Coeffs", c.where, "symbols not found")
+            chk.undecided(rule, "Coeffs", c.where, "symbols not found")
             continue
         q = sp.Rational(1, 2) * rho * v**2
-        check_identity(chk, "I1", "Coeffs.CL1", c.where, _out(r, "CL1"), L / (q * S), t, "CL1 = L/(q S)")
-        check_identity(chk, "I1", "Coeffs.CDi", c.where, _out(r, "CDi"), D / (q * S), t, "CDi = D/(q S)")
+        check_identity(chk, rule, "Coeffs.CL1", c.where, _out(r, "CL1"), L / (q * S), t, "CL1 = L/(q S)")
+        check_identity(chk, rule, "Coeffs.CDi", c.where, _out(r, "CDi"), D / (q * S), t, "CDi = D/(q S)")
     # ---- MomentCoefficient: CM = M / (q S_tot MAC_first), MAC_first from the first surface only
     c = repo.cls(F + "moment_coefficient.py", "MomentCoefficient")
     m = component_model(repo, c, domains=(SymX,))
     ratios = {}
-    for r in m.runs.get("compute", []):
+    for r in m.runs.get("compute", []) if (only is None or "MomentCoefficient" in only) else []:
         if r.final is None:
             continue
         t = r.domains["SYMX"].table
@@ -181,18 +183,18 @@ def i1(chk, repo):
         rho, v, S = a.s("rho"), a.s("v"), a.s("S_ref_total")
         tag = sig_txt(r.sigma)
         if CM is None or Mx is None or None in (rho, v, S):
-            chk.undecided("I1", "MomentCoefficient.CM %s" % tag, c.where, "expression not extracted", algebraic=True)
+            chk.undecided(rule, "MomentCoefficient.CM %s" % tag, c.where, "expression not extracted", algebraic=True)
             continue
         mac = sp.simplify(Mx / (CM * sp.Rational(1, 2) * rho * v**2 * S))
         names = {s.name for s in mac.free_symbols}
         other = sorted(n for n in names if n.endswith(("@1", "@2")))
         key = "MomentCoefficient.CM %s" % tag
         if other:
-            chk.violation("I1", key, c.where, "CM = M/(q S_ref_total c) with c = %s, which depends on surfaces other than the first (%s): CM must be normalised by the first surface's mean aerodynamic chord" % (_short(mac), other), algebraic=True)
+            chk.violation(rule, key, c.where, "CM = M/(q S_ref_total c) with c = %s, which depends on surfaces other than the first (%s): CM must be normalised by the first surface's mean aerodynamic chord" % (_short(mac), other), algebraic=True)
         elif any(n.startswith("opq") for n in names):
-            chk.undecided("I1", key, c.where, "normalising length not isolated: %s" % _short(mac), algebraic=True)
+            chk.undecided(rule, key, c.where, "normalising length not isolated: %s" % _short(mac), algebraic=True)
         else:
-            chk.ok("I1", key, c.where, "CM = M/(q S_ref_total MAC) with MAC = %s of the first surface" % _short(mac), algebraic=True)
+            chk.ok(rule, key, c.where, "CM = M/(q S_ref_total MAC) with MAC = %s of the first surface" % _short(mac), algebraic=True)
             first = tuple(sorted((k, v_) for k, v_ in r.sigma.items() if "[0]" in k))
             ratios.setdefault(first, []).append((tag, mac, t))
     for first, lst in ratios.items():
@@ -201,11 +203,11 @@ def i1(chk, repo):
             key = "MomentCoefficient: MAC independent of the other surfaces' options %s vs %s" % (t0, tg)
             r = equal(m0, mc, tb)
             if r is True:
-                chk.ok("I1", key, c.where, "same normalising chord", algebraic=True)
+                chk.ok(rule, key, c.where, "same normalising chord", algebraic=True)
             elif r is False:
-                chk.violation("I1", key, c.where, "the normalising chord of CM changes with the options of a surface other than the first: %s vs %s" % (_short(m0), _short(mc)), algebraic=True)
+                chk.violation(rule, key, c.where, "the normalising chord of CM changes with the options of a surface other than the first: %s vs %s" % (_short(m0), _short(mc)), algebraic=True)
             else:
-                chk.undecided("I1", key, c.where, "", algebraic=True)
+                chk.undecided(rule, key, c.where, "", algebraic=True)
 
 
 def run(chk, repo, tier):
